@@ -187,6 +187,9 @@ def check(repo: Repo, run: Run) -> None:
     from .c09 import window_obligations
     window_obligations(repo, run, ("K3", "K4"),
                        "the decoder's events[-1] is then not (only) the END record of the call being rendered")
+    from .c09 import lookup_obligations
+    lookup_obligations(repo, run, "the call part (its path arguments) can then contain bytes of records that are not lookups, the "
+                                  "call's own END record included")
     D = decoders.Decoders(repo)
     n = n_ex = 0
     for e in D.entries():
